@@ -11,6 +11,7 @@ import Driver.Filter
 import Driver.Sample
 import Driver.Simd
 import Driver.ImageState
+import Driver.Lifetime
 /-! `pixdrv <domain>`: reads requests on stdin, writes one reply line per request. -/
 
 partial def loop (h : IO.FS.Stream) (out : IO.FS.Stream) (f : String → String) : IO Unit := do
@@ -36,4 +37,5 @@ def main (args : List String) : IO UInt32 := do
   | ["sample"] => loop stdin stdout Driver.Sample.handle; return 0
   | ["simd"] => loop stdin stdout Driver.Simd.handle; return 0
   | ["imgstate"] => loop stdin stdout Driver.ImageState.handle; return 0
+  | ["lifetime"] => loop stdin stdout Driver.Lifetime.handle; return 0
   | _ => IO.eprintln "usage: pixdrv <domain>"; return 2
